@@ -12,7 +12,13 @@ specification `Ekit.BQ.bqExec` (exhaustive search, `budgetExceeded` is never a v
 monitors the property names: sampled `Len()` within `[0, cap]`, exactly-once / FIFO accounting at
 quiescence, per-producer order at consumers, and "a call that returned a context error left the
 remaining capacity intact" (the fill/drain phase accepts exactly `cap - len` more elements and
-delivers contents ++ them in order).
+delivers contents ++ them in order).  Also in both modes: a call that answered a context error while its
+context was still live after the call (`spur`, observed by the harness) is rejected; every `Len()` /
+`AsSlice()` answer recorded in the history is re-checked against the capacity and the offered values
+(`readResults`, also for the storms that are too long for the search); `Len()` = `len(AsSlice())` at
+quiescence; a `hang` line is rejected here too (the harness stops the run at a hang, so accepting it
+would acquit every later scenario unseen); the closing `end` line must agree with the number of
+scenario lines read and at least 90% of the histories given to the search must have been decided.
 
 `model` mode additionally runs the transition-system models the theorems are about
 (`Ekit.ArrayBQ.step`, `Ekit.LinkedBQ.step`): sequential scenarios are replayed label by label and the
@@ -182,6 +188,30 @@ structure Scn where
 
 def Scn.bound (s : Scn) : Option Nat := if 0 < s.cap then some s.cap.toNat else none
 
+/-- re-derived from the raw history (every mode, also the storms that are too long for the search):
+    every `Len()` answer lies in `[0, cap]`; every `AsSlice()` answer has at most `cap` elements, shows
+    no element twice and shows only values some Enqueue of the history was invoked with (the zero value
+    of a vacated slot in particular is none of them). -/
+def readResults (sc : Scn) (cs : Array CallX) : Option String :=
+  let offered : List Int := cs.toList.filterMap fun x => match x.c.op with
+    | .enq v => some v
+    | _ => none
+  let over (k : Int) : Bool := match sc.bound with
+    | some c => k > (c : Int)
+    | none => false
+  cs.toList.findSome? fun x => match x.c.ret with
+    | some (.n k) =>
+      if k < 0 then some s!"thread {x.c.tid}: Len() = {k}"
+      else if over k then some s!"thread {x.c.tid}: Len() = {k} exceeds capacity {sc.cap}"
+      else none
+    | some (.slice l) =>
+      if over l.length then some s!"thread {x.c.tid}: len(AsSlice()) = {l.length} exceeds capacity {sc.cap}"
+      else if l.eraseDups.length ≠ l.length then some s!"thread {x.c.tid}: AsSlice() = {renderInts l} shows an element twice"
+      else match l.find? (fun v => !offered.contains v) with
+        | some v => some s!"thread {x.c.tid}: AsSlice() = {renderInts l} shows {v}, which no Enqueue was called with"
+        | none => none
+    | _ => none
+
 /-- the fill/drain phase after the storm: exactly `cap - len` more are accepted, then delivered -/
 def fillDrain (sc : Scn) (obs : String) (final : List Int) : Option String :=
   let fill := field obs "fill"
@@ -347,10 +377,17 @@ def modelChecks (sc : Scn) (mode : String) (cs : Array CallX) (obs : String) (fi
 /-! ### the checker -/
 
 /-- checks shared by C07 and the C09 share; `wake := true` adds the C09 conditions -/
-def checkGo (model : Bool) (wake : Bool) (sc : Scn) (mode : String) (obs : String) : Option String :=
+def checkGo (model : Bool) (wake : Bool) (sc : Scn) (mode : String) (obs : String) : Option String × Option Verdict :=
   match (field obs "h").bind parseHistory with
-  | none => some "malformed history"
+  | none => (some "malformed history", none)
   | some cs =>
+    -- linearizability (small histories; exhaustive)
+    let linV : Option Verdict :=
+      if wake then none
+      else if cs.size ≤ 16 ∨ mode ≠ "big" then
+        if cs.size > 60 then none else some (linCheck (bqExec sc.bound) (cs.map (·.c)))
+      else none
+    (·, linV) <|
     let hang := (field obs "hang").getD "?"
     let stuck := (field obs "stuck").getD "?"
     let wedged := (field obs "wedged").getD "-"
@@ -359,43 +396,48 @@ def checkGo (model : Bool) (wake : Bool) (sc : Scn) (mode : String) (obs : Strin
     else if (field obs "postpanic").isSome then some s!"the queue panicked after the scenario: {(field obs "postpanic").getD ""}"
     else if wake && hang ≠ "-" then some s!"a call did not return although its context ended long ago (the bound): hang={hang}"
     else if wake && stuck ≠ "-" then some s!"a blocked call stayed blocked although it could proceed (lost wake-up): stuck={stuck}"
+    -- "a context error only when the context ended": the harness looked at the call's context AFTER the
+    -- call had returned the error and found it still live (contexts are monotone)
+    else if field obs "spur" ≠ some "-" then
+      some s!"a call answered a context error although its context had not ended (thread:op:ctx = {(field obs "spur").getD "?"})"
     else
     match cs.find? (fun x => x.c.ret = some .err) with
     | some x => some s!"thread {x.c.tid}: {repr x.c.op} failed with a non-context error or panicked"
     | none =>
-    -- linearizability (small histories; exhaustive)
     let lin : Option String :=
-      if wake then none
-      else if cs.size ≤ 16 ∨ mode ≠ "big" then
-        if cs.size > 60 then none else
-        match linCheck (bqExec sc.bound) (cs.map (·.c)) with
-        | .notLinearizable => some "history is not linearizable w.r.t. the bounded FIFO queue"
-        | _ => none
-      else none
+      match linV with
+      | some .notLinearizable => some "history is not linearizable w.r.t. the bounded FIFO queue"
+      | _ => none
     match lin with
     | some m => some m
     | none =>
     -- sampled Len()/AsSlice()
-    let maxlen := (fieldInt obs "maxlen").getD 0
-    let minlen := (fieldInt obs "minlen").getD 0
-    let maxslice := (fieldInt obs "maxslice").getD 0
+    match fieldInt obs "maxlen", fieldInt obs "minlen", fieldInt obs "maxslice" with
+    | none, _, _ | _, none, _ | _, _, none => some "malformed sampler fields (maxlen/minlen/maxslice)"
+    | some maxlen, some minlen, some maxslice =>
     let mon : Option String :=
       if wake then none
       else if minlen < 0 then some s!"Len() = {minlen} observed"
-      else if sc.bound.isSome ∧ maxlen > sc.cap ∧ maxlen < 1000000 then some s!"Len() = {maxlen} exceeds capacity {sc.cap}"
+      else if sc.bound.isSome ∧ maxlen > sc.cap then some s!"Len() = {maxlen} exceeds capacity {sc.cap}"
       else if sc.bound.isSome ∧ maxslice > sc.cap then some s!"len(AsSlice()) = {maxslice} exceeds capacity {sc.cap}"
       else if field obs "dup" ≠ some "0" then some "AsSlice() showed an element twice"
       else if (field obs "zero").getD "0" ≠ "0" then some "AsSlice() showed the zero value of a dequeued slot"
       else if (field obs "torn").getD "0" ≠ "0" then some "AsSlice() is not in the order of the single producer's sequence"
-      else snapshots cs mode
+      else (readResults sc cs).orElse fun _ => snapshots cs mode
     match mon with
     | some m => some m
     | none =>
-    if hang ≠ "-" then none     -- quiescent observations unavailable (reported by the C09 checker)
+    if hang ≠ "-" then
+      -- no quiescent observations, an incomplete history, and the harness stops the run here: nothing
+      -- after this scenario is executed, so accepting the line would acquit the rest of the run unseen
+      some s!"a call did not return although its context ended long ago (hang={hang}): the history is incomplete and the run was stopped, the remaining scenarios were not executed"
     else
     match fieldInts obs "final" with
     | none => some "malformed final contents"
     | some final =>
+      if fieldInt obs "flen" ≠ some (final.length : Int) then
+        some s!"at quiescence Len() = {(field obs "flen").getD "?"} but AsSlice() has {final.length} elements"
+      else
       let acct : Option String :=
         if wake then none
         else if hasPending cs then none
@@ -412,11 +454,13 @@ def checkGo (model : Bool) (wake : Bool) (sc : Scn) (mode : String) (obs : Strin
     still in the queue, nothing was delivered that was never accepted (the zero value in particular),
     each consumer saw each producer's values in the order produced, the queue never exceeded its
     capacity, and the queue kept answering. -/
-def checkFlood (wake : Bool) (obs : String) : Option String :=
+def checkFlood (wake : Bool) (capOf : Option Nat) (obs : String) : Option String :=
   let n (k : String) : Int := (fieldInt obs k).getD (-1)
   let w := (field obs "w").getD "?"
   let wedged := (field obs "wedged").getD "?"
   if wedged ≠ "-" then some s!"the queue is wedged (leaked lock?): producers/consumers of the flood scenario no longer return, ignoring their contexts (wedged={wedged})"
+  else if n "spur" ≠ 0 then
+    some s!"{n "spur"} Enqueue/Dequeue calls of the flood answered an error although their context had not ended"
   else if wake then none
   else if n "invented" ≠ 0 then
     some s!"a Dequeue returned a value no Enqueue was accepted for ({n "invented"} times, {n "zero"} of them the zero value); witness {w}"
@@ -427,24 +471,60 @@ def checkFlood (wake : Bool) (obs : String) : Option String :=
   else if n "overcap" ≠ 0 then some "the quiescent queue holds more elements than its capacity"
   else if n "accepted" < 0 ∨ n "delivered" < 0 ∨ n "left" < 0 ∨ n "accepted" ≠ n "delivered" + n "left" then
     some s!"exactly-once books do not balance: accepted={n "accepted"} delivered={n "delivered"} left={n "left"}"
+  else if n "final" ≠ n "left" ∨ n "flen" ≠ n "left" then
+    some s!"at quiescence Len() = {n "flen"} and len(AsSlice()) = {n "final"}, but {n "left"} accepted values are still queued"
+  else if (match capOf with | some c => decide (n "left" > (c : Int)) | none => false) then
+    some s!"the quiescent queue holds {n "left"} elements, more than its capacity"
+  else if n "accepted" = 0 ∨ n "delivered" = 0 then
+    some s!"the flood moved nothing through the queue (accepted={n "accepted"} delivered={n "delivered"}): no evidence"
+  else none
+
+structure St where
+  sc : Option Scn := none
+  goSeen : Nat := 0          -- `go` lines seen
+  floodSeen : Nat := 0
+  linTried : Nat := 0        -- histories given to the linearizability search
+  linOpen : Nat := 0         -- ... on which the search ran out of budget (never a violation by itself)
+
+/-- the `end` line closes a run: the harness says how many scenario lines it wrote (a trace that lost
+    lines is not evidence), and the linearizability search must have DECIDED at least 90% of the
+    histories it was given (`budgetExceeded` is never a violation on one history, but a run in which
+    the search decides next to nothing certifies nothing). -/
+def checkEnd (wake : Bool) (st : St) (obs : String) : Option String :=
+  if fieldNat obs "go" ≠ some st.goSeen ∨ fieldNat obs "flood" ≠ some st.floodSeen then
+    some s!"the harness wrote go={(field obs "go").getD "?"} flood={(field obs "flood").getD "?"} scenario lines, the trace has {st.goSeen} and {st.floodSeen}"
+  else if !wake ∧ st.linTried ≥ 20 ∧ st.linOpen * 10 > st.linTried then
+    some s!"the linearizability search could not decide {st.linOpen} of {st.linTried} histories within its budget: the run is no evidence"
   else none
 
 def mkChecker (model : Bool) (wake : Bool) : Checker where
-  σ := Option Scn
-  init := none
+  σ := St
+  init := {}
   step st op obs :=
     match words op with
     | ["new", kind, c] =>
       match c.toInt? with
       | some c =>
-        if (kind = "abq" ∧ c ≥ 1) ∨ kind = "lbq" then (some ⟨kind, c⟩, none) else (none, some s!"bad-op {op}")
-      | none => (none, some s!"bad-op {op}")
+        if (kind = "abq" ∧ c ≥ 1) ∨ kind = "lbq" then ({ st with sc := some ⟨kind, c⟩ }, none)
+        else ({ st with sc := none }, some s!"bad-op {op}")
+      | none => ({ st with sc := none }, some s!"bad-op {op}")
     | "call" :: _ => (st, if obs = "ok" then none else some s!"harness: {obs}")
-    | "flood" :: _ => (st, if st.isNone then some "no-queue" else checkFlood wake obs)
-    | "go" :: _ :: mode :: _ =>
-      match st with
+    | "flood" :: _ =>
+      match st.sc with
       | none => (st, some "no-queue")
-      | some sc => (st, checkGo model wake sc mode obs)
+      | some sc => ({ st with floodSeen := st.floodSeen + 1 }, checkFlood wake sc.bound obs)
+    | "go" :: _ :: mode :: _ =>
+      match st.sc with
+      | none => (st, some "no-queue")
+      | some sc =>
+        let (msg, v) := checkGo model wake sc mode obs
+        let st := { st with goSeen := st.goSeen + 1 }
+        let st := match v with
+          | some .budgetExceeded => { st with linTried := st.linTried + 1, linOpen := st.linOpen + 1 }
+          | some _ => { st with linTried := st.linTried + 1 }
+          | none => st
+        (st, msg)
+    | "end" :: _ => ({}, checkEnd wake st obs)
     | _ => (st, some s!"bad-op {op}")
 
 def checker (model : Bool) : Checker := mkChecker model false
